@@ -5,5 +5,6 @@ CONSTANTS
   Barrier = TRUE
   AcqBarrier = TRUE
   NotLeaderPanics = FALSE
+  ApplyRefuses = TRUE
 POSTCONDITION Done
 CHECK_DEADLOCK FALSE
